@@ -65,3 +65,38 @@ func VerifHarness_RemoveOrder_Deliver() {
 	r2 := u.deliver(verifSignBy(tx2, signer))
 	verifAssert("C14:cancel-only-once", r2.Code == code.OrderNotExists || r2.Code != 0)
 }
+
+// AddLimitOrder by A in pool (token 2, base): sell base for token or token for
+// base (config "sellToken"), volumes symbolic, fee in the base coin.  On
+// acceptance the sender is debited exactly the volume to sell (plus the fee
+// when it is the same coin), the escrow of the new order is exactly that
+// volume and both volumes reach the minimum order volume (the price window of
+// the placement check is not asserted here).
+func VerifHarness_AddOrder_Deliver() {
+	u := verifUniverse() // config: pool20=1 concretePool=1 concretePrices=1
+	nonce0 := u.st.Accounts.GetNonce(u.A)
+	sell, buy := types.CoinID(0), verifCoinToken
+	if verifConfig("sellToken") == 1 {
+		sell, buy = verifCoinToken, 0
+	}
+	vs, vb := verifBigNN("valueToSell"), verifBigNN("valueToBuy")
+	tx := verifTx(nonce0+1, verifGasPrice(), 0, TypeAddLimitOrder, AddLimitOrderData{CoinToSell: sell, ValueToSell: vs, CoinToBuy: buy, ValueToBuy: vb})
+	// the id the order will get, registered with the ledger beforehand (its escrow reads 0 until it exists)
+	u.orders = append(u.orders, verifOrderRef{id: 1, c0: buy, c1: sell, owner: u.A})
+	resp, before, after := verifDeliverChecked(u, tx, verifSignBy(tx, 1), u.A, nonce0)
+	if resp.Code != 0 {
+		return
+	}
+	wantBuy, esc := u.st.SwapV2.VerifOrder(buy, sell, 1)
+	verifAssert("C14:escrow-is-exactly-the-volume-to-sell", esc.Cmp(vs) == 0 && wantBuy.Cmp(vb) == 0)
+	min := big.NewInt(10000000000)
+	verifAssert("C14:new-order-not-below-minimum-volume", vs.Cmp(min) >= 0 && vb.Cmp(min) >= 0)
+	fee := new(big.Int).Sub(after.get("rewardpool"), before.get("rewardpool"))
+	n := "bal.A." + sell.String()
+	paid := new(big.Int).Sub(before.get(n), after.get(n))
+	want := new(big.Int).Set(vs)
+	if sell.IsBaseCoin() {
+		want.Add(want, fee)
+	}
+	verifAssert("C05:order-placement-debits-exactly", paid.Cmp(want) == 0)
+}
